@@ -141,6 +141,11 @@ func compareNodes(r *ExecResult, a, b *Node, u *Universe, when string, newState 
 	staleLeaf := map[string]bool{} // "owner/slot" of storage-trie leaves present only in A
 	for _, d := range diffs {
 		bucket := bucketOf(d.Key)
+		if bucket == "RunningEventFilter" {
+			// the snapshot of the in-memory filter a graceful shutdown of A wrote (B was never shut
+			// down); whether a node started from it behaves like B is compared by restartCompare
+			continue
+		}
 		if newState && (bucket == "ContractTrieStorage" || bucket == "ContractTrieContract" || bucket == "ClassTrie") &&
 			d.B == "<absent>" && strings.HasSuffix(d.Key, "fb") {
 			// a leaf node (path length 251) that only A has: trie2 did not remove a deleted leaf
@@ -204,9 +209,9 @@ func compareNodes(r *ExecResult, a, b *Node, u *Universe, when string, newState 
 	}
 	stateBlocks := blocks
 	if u.ObsFrom > 0 {
-		if h, err := a.BC.Height(); err == nil {
-			stateBlocks = []uint64{h}
-		}
+		// long chains: head state only (every legacy historical read copies the whole memory DB;
+		// historical reads are covered by the short scenarios)
+		stateBlocks = []uint64{}
 	}
 	oa := observe(a.BC, u, stateBlocks, blocks)
 	ob := observe(b.BC, u, stateBlocks, blocks)
@@ -300,6 +305,10 @@ func execScenario(sc *Scenario, opt lib.GenOptions, withTrace bool) *ExecResult 
 	}
 	probe := lib.NewChainGen(lib.NewRNG(1), sc.NewState, opt) // only for the address/slot universe
 	u := NewUniverse(probe)
+	if sc.SmallUniverse {
+		u.Addrs = []felt.Felt{*lib.F(1), *lib.F(2), *lib.F(0x104), *lib.F(0xdead)}
+		u.Slots = []felt.Felt{*lib.F(3), *lib.F(0xbeef)}
+	}
 	line := newLine(hr, sc.NewState, opt)
 	a := newNode("A", sc.NewState)
 	r.Trace.newNode("A")
@@ -310,6 +319,31 @@ func execScenario(sc *Scenario, opt lib.GenOptions, withTrace bool) *ExecResult 
 		err := n.Store(b)
 		r.Trace.store(n, b, spec, err)
 		return err
+	}
+	// restarts of node A
+	planPos := 0
+	restartA := func(where string, first bool, rot int) {
+		mode := 0
+		if planPos < len(sc.RestartPlan) {
+			mode = sc.RestartPlan[planPos]
+		} else if first && sc.RestartMode > 0 {
+			mode = 1 + (sc.RestartMode-1+rot)%2
+		}
+		planPos++
+		if mode == 0 {
+			return
+		}
+		if err := a.RestartInPlace(sc.NewState, mode == 2); err != nil {
+			r.find("restart-fails", fmt.Sprintf("%s: writing the running filter snapshot failed: %v", where, err), nil)
+			return
+		}
+		if mode == 2 {
+			r.op("A.gracefulRestart (%s)", where)
+			r.hit("restart:graceful:" + strings.SplitN(where, " ", 2)[0])
+		} else {
+			r.op("A.restart (%s)", where)
+			r.hit("restart:kill:" + strings.SplitN(where, " ", 2)[0])
+		}
 	}
 	u.ObsFrom = sc.ObsFrom
 	var snap *Line // source line at the first fork point
@@ -351,6 +385,7 @@ func execScenario(sc *Scenario, opt lib.GenOptions, withTrace bool) *ExecResult 
 		W := int(core.NumBlocksPerFilter)
 		crossed := sc.Warm && k > 0 && len(chain) > 0 && (len(chain)-1)/W > 0 && (len(chain)-1)/W != (len(chain)-k-1)/W
 		for j := 0; j < k; j++ {
+			restartA(fmt.Sprintf("before-revert of block %d", len(chain)-1), j == 0, 0)
 			err := a.Revert()
 			r.Trace.revert(a, err)
 			r.op("A.revert (block %d)", len(chain)-1)
@@ -390,8 +425,9 @@ func execScenario(sc *Scenario, opt lib.GenOptions, withTrace bool) *ExecResult 
 			}
 			line = nl
 		}
+		restartA("before-compare after the reverts", false, 0)
 		compareNodes(r, a, b, u, fmt.Sprintf("round %d after reverting %d block(s) to height %d", ri, k, p), sc.NewState, implicit, false)
-		r.Trace.checkpoint(a, u, len(rd.Fork) == 0 && ri == len(sc.Rounds)-1)
+		r.Trace.checkpoint(a, u, !sc.LightModel && len(rd.Fork) == 0 && ri == len(sc.Rounds)-1)
 		if sc.Restart {
 			restartCompare(r, a, b, line, u, sc.NewState, fmt.Sprintf("round %d after the reverts", ri))
 		}
@@ -415,6 +451,9 @@ func execScenario(sc *Scenario, opt lib.GenOptions, withTrace bool) *ExecResult 
 				r.Skipped = fmt.Sprintf("round %d fork block %d rejected by B: %v", ri, j, errB)
 				return r
 			}
+			if j == 0 {
+				restartA(fmt.Sprintf("before-fork-store of block %d", bd.Block.Number), true, 1)
+			}
 			errA := storeOn(a, bd, spec)
 			r.op("A.store fork%d[%d] %s", ri, j, specSummary(spec))
 			if errA != nil {
@@ -425,8 +464,9 @@ func execScenario(sc *Scenario, opt lib.GenOptions, withTrace bool) *ExecResult 
 			chain = append(chain, spec)
 		}
 		if len(rd.Fork) > 0 {
+			restartA("before-compare after the fork", false, 0)
 			compareNodes(r, a, b, u, fmt.Sprintf("round %d after following the fork to height %d", ri, len(chain)), sc.NewState, implicit, crossed)
-			r.Trace.checkpoint(a, u, ri == len(sc.Rounds)-1)
+			r.Trace.checkpoint(a, u, !sc.LightModel && ri == len(sc.Rounds)-1)
 		}
 		if sc.Restart {
 			restartCompare(r, a, b, line, u, sc.NewState, fmt.Sprintf("round %d", ri))
@@ -450,6 +490,14 @@ func restartCompare(r *ExecResult, a, b *Node, line *Line, u *Universe, newState
 	if err != nil {
 		r.Skipped = "restart probe block cannot be finalised: " + err.Error()
 		return
+	}
+	if h0, err := b.BC.Height(); err == nil {
+		o1, o2 := Obs{}, Obs{}
+		observeEvents(o1, a2.BC, u, h0, "")
+		observeEvents(o2, b.BC, u, h0, "")
+		if d := diffObs(o1, o2); len(d) > 0 {
+			r.find("restarted-node-event-query-differs-after-revert", fmt.Sprintf("%s: a restarted copy of A and B give %d different event answers, first %s: A=%s B=%s", when, len(d), d[0].Query, d[0].A, d[0].B), d[0])
+		}
 	}
 	ea, eb := a2.Store(bd), b2.Store(bd)
 	r.hit("restart-compared")
